@@ -123,6 +123,8 @@ def main(argv: Optional[List[str]] = None) -> int:
             "functions_analysed": len(ctx.prog.funcs),
             "modules_analysed": sorted(ctx.prog.modules),
             "source_digest": ctx.prog.digest(),
+            "normalisation_applied": (list(getattr(ctx.prog, "inlined", []))[:40]
+                                      + ([f"renamed {k} -> {v}" for k, v in getattr(ctx.prog, "renamed", {}).items()])),
             "rules_applied": sorted({o.rule for o in obs}),
             "rule_instance_counts": {r: sum(1 for o in obs if o.rule == r) for r in sorted({o.rule for o in obs})},
             "call_sites_resolved": ctx.res.resolved,
